@@ -81,6 +81,8 @@ type propStats struct {
 
 const hashCap = 150000
 
+var replayNoExclude string
+
 var (
 	mu    sync.Mutex
 	stats = map[string]*propStats{}
@@ -255,7 +257,10 @@ func replayFile[C any](t *testing.T, p Prop[C], path string, explicit bool) {
 	if err := json.Unmarshal(sc.Case, &c); err != nil {
 		t.Fatalf("replay %s: bad case: %v", path, err)
 	}
+	// a known finding's own scenario is replayed with that finding's exclusion switched off
+	replayNoExclude = sc.Known
 	r := safeRun(p.Run, c)
+	replayNoExclude = ""
 	mu.Lock()
 	getStats(p.full()).Regress++
 	mu.Unlock()
@@ -310,6 +315,9 @@ func WriteStats() {
 // Exclusions are on unless listed in VERIF_NO_EXCLUDE (comma separated; used
 // to show that the search rediscovers the finding).
 func Excluded(id string) bool {
+	if replayNoExclude == id {
+		return false
+	}
 	for _, x := range strings.Split(os.Getenv("VERIF_NO_EXCLUDE"), ",") {
 		if x == id || x == "all" {
 			return false
